@@ -674,6 +674,10 @@ func (vc *VC) assumeLoaded(st *State, t Term, typ types.Type) {
 		}
 	case *types.Struct:
 		vc.assumeWF(st, t, typ)
+	case *types.Array:
+		if isU256(typ) {
+			vc.assumeWF(st, t, typ)
+		}
 	}
 }
 
